@@ -16,6 +16,10 @@ def K(pid, oid, crate, harness, what, tier='quick', timeout=None):
     PROPS[pid]['obligations'].append(o)
 
 
+def T(pid, oid, what, tier='quick'):
+    PROPS[pid]['obligations'].append({'id': oid, 'engine': 'twin', 'what': what, 'tier': tier})
+
+
 def M(pid, oid, query, what, tier='quick', **kw):
     o = {'id': oid, 'engine': 'mir', 'query': query, 'what': what, 'tier': tier}
     o.update(kw)
@@ -363,3 +367,10 @@ K('C06', 'P4.isolation_shared_locator', 'teos', _w + 'c01_p2_handle_breaches_sha
 PROPS['C01']['outside'] = PROPS['C01']['outside'].replace('the block-connection path Watcher::filtered_block_connected -> get_breaches -> handle_breaches is not run under Kani (its loop over breaches runs out of memory): only its lock/call order is checked (C10.M1, C11.M1) and its per-breach step is the same handle_breach',
     'of the block-connection path, Watcher::handle_breaches is run for one breached locator with two appointments; filtered_block_connected / get_breaches themselves (locator map construction, cache update, deletion of the invalid ones) are only covered through lock/call order (C10.M1, C11.M1)')
 K('C06', 'P4.isolation_both_garbled', 'teos', _w + 'c06_handle_breaches_both_garbled', 'two users share a breached locator, both blobs garbled: two decryptions, each with that appointment\'s own blob; both reported invalid; nothing sent', 'thorough')
+
+TWIN_WHAT = ('encoding validation (sampling, not a solver verdict): pseudo-random operation sequences (VERIF_SEED) run natively on the real sqlite DBM and on '
+             'models/dbm_tower.rs; every observable result (rows, existence, lengths, owners, selections by status/locator, cascades, error/ok) must agree')
+T('C08', 'T1.dbm_model_twin', TWIN_WHAT)
+T('C04', 'T1.dbm_model_twin', TWIN_WHAT, 'thorough')
+T('C09', 'T1.dbm_model_twin', TWIN_WHAT, 'thorough')
+T('C01', 'T1.dbm_model_twin', TWIN_WHAT, 'thorough')
